@@ -104,9 +104,8 @@ theorem peersharing_n2 (m : PeerSharing.Msg) (h : m.valid U16MAX = true) :
   good_of_spec (PeerSharing.Msg.spec U16MAX (by decide) m h)
 
 theorem txmonitor (m : TxMonitor.Msg) (h : m.valid = true) :
-    Good (fun m => some (TxMonitor.Msg.enc m)) TxMonitor.Msg.dec m := by
-  obtain ⟨hok, hdec⟩ := TxMonitor.Msg.spec m h
-  exact ⟨_, rfl, E.lensOk_of_ok _ hok, E.single _ hok, by simpa using hdec [] (fun _ => rfl)⟩
+    Good (fun m => some (TxMonitor.Msg.enc m)) TxMonitor.Msg.dec m :=
+  good_of_spec (TxMonitor.Msg.spec m h)
 
 theorem localstate (m : LocalState.Msg) (h : m.valid okAny = true) :
     Good (fun m => some (LocalState.Msg.enc m)) LocalState.Msg.dec m :=
@@ -182,11 +181,19 @@ theorem v6_array6_is_an_item :
 /-- `ReplyMessagesBlocking` used to declare `array(3)` for label + list -/
 theorem replyBlocking_array3_is_not_an_item : isSingleItem [0x83, 0x02, 0x9f, 0xff] = false := by decide
 
-/-! ## the read-ahead of tx-monitor `ResponseNextTx(None)` (not a C22 failure, noted for C21) -/
+/-! ## tx-monitor `ResponseNextTx(None)` no longer depends on what follows the message
 
-theorem txmonitor_none_depends_on_what_follows :
-    TxMonitor.Msg.dec ((TxMonitor.Msg.enc (.responseNextTx none)).encode ++ [0x81, 0x05]) ≠ .ok (.responseNextTx none) [0x81, 0x05] :=
-  TxMonitor.responseNextTx_none_reads_ahead
+The unchanged tree decided between `None` and `Some` by peeking at the item *after* the label, so
+`[6]` followed by another message was misread (found here, repaired under C21: "txmonitor
+ResponseNextTx decoding looks at the array length"). The decoder as it is now reads `[6]` back as
+`None` whatever follows. -/
+
+theorem txmonitor_none_independent_of_what_follows (r : Bytes) :
+    TxMonitor.Msg.dec ((TxMonitor.Msg.enc (.responseNextTx none)).encode ++ r) = .ok (.responseNextTx none) r :=
+  (TxMonitor.Msg.spec (.responseNextTx none) rfl).2 r
+
+/-- local-tx-submission: an empty or truncated buffer is "need more bytes", not an empty rejection -/
+theorem localtx_empty_input_is_eoi : LocalTx.Msg.dec EraTx.dec OpaqueReject.dec OpaqueReject.text [] = .eoi := by decide
 
 /-! ## Tie A: labels and declared arities extracted from the Rust sources -/
 
